@@ -32,6 +32,7 @@ type Engine struct {
 	mu         sync.Mutex
 	globalInit map[*types.Var]ast.Expr
 	typeById   map[int]types.Type
+	escaping   map[types.Object]bool
 }
 
 func qualName(fd *ast.FuncDecl) string {
@@ -169,6 +170,10 @@ func (e *Engine) typeByName(s string) types.Type {
 	}
 	if strings.HasPrefix(s, "[]") {
 		return types.NewSlice(e.typeByName(s[2:]))
+	}
+	if strings.HasPrefix(s, "seqof:") {
+		// ghost sequence: an unbounded array indexed by int
+		return types.NewArray(e.typeByName(s[6:]), 1<<62)
 	}
 	switch s {
 	case "ref":
@@ -401,4 +406,36 @@ func (e *Engine) fieldWriters(key string) []string {
 	}
 	sort.Strings(out)
 	return out
+}
+
+// escapingLocals: local variables whose address is taken somewhere in the
+// package (&x): they live in the heap from their declaration on.
+func (e *Engine) escapingLocals() map[types.Object]bool {
+	e.mu.Lock()
+	defer e.mu.Unlock()
+	if e.escaping != nil {
+		return e.escaping
+	}
+	e.escaping = map[types.Object]bool{}
+	for _, f := range e.pkg.Syntax {
+		ast.Inspect(f, func(n ast.Node) bool {
+			if u, ok := n.(*ast.UnaryExpr); ok && u.Op == token.AND {
+				x := u.X
+				for {
+					if p, ok := x.(*ast.ParenExpr); ok {
+						x = p.X
+						continue
+					}
+					break
+				}
+				if id, ok := x.(*ast.Ident); ok {
+					if v, ok := e.info.Uses[id].(*types.Var); ok && v.Parent() != e.pkg.Types.Scope() && !v.IsField() {
+						e.escaping[v] = true
+					}
+				}
+			}
+			return true
+		})
+	}
+	return e.escaping
 }
